@@ -1,5 +1,6 @@
 import ChaiVerif.Drv.Util
 import ChaiVerif.Spec.Cast
+import ChaiVerif.Model.Bind
 namespace ChaiVerif.Drv
 open ChaiVerif
 
@@ -42,6 +43,24 @@ def received (p : CP) (a : CA) : String :=
   | .typed .both _ => s!"both:{a.num}"
   | .typed .undef _ => "?"
 
+/-- `bind <pattern over b/_> <number of call arguments> <mixed 0|1>`: the harness binds a logging function of `pattern.length` parameters
+    (all int, or int / string alternating when mixed) with stored values at the `b` positions and calls the result -/
+def bindLine (pattern : String) (nargs : Nat) (mixed : Bool) : String :=
+  let pat := pattern.toList
+  let isStr (i : Nat) : Bool := mixed && i % 2 == 1
+  let placeholders := (List.range pat.length).filter (fun i => pat.getD i 'b' == '_')
+  let bs : List (Option (Bool × String)) := (List.range pat.length).map (fun i =>
+    if pat.getD i 'b' == '_' then none else some (if isStr i then (true, s!"sb{i}") else (false, s!"i{100 + i}")))
+  let ps : List (Bool × String) := (List.range nargs).map (fun j =>
+    match placeholders[j]? with
+    | some p => if isStr p then (true, s!"sa{j}") else (false, s!"i{1 + j}")
+    | none => (false, s!"i{1 + j}"))
+  let show_ (vs : List (Bool × String)) : String :=
+    if vs.length == pat.length && (List.range vs.length).all (fun i => (vs.getD i (false, "")).1 == isStr i) then
+      "entered rec(" ++ ",".intercalate (vs.map (·.2)) ++ ")"
+    else "error"
+  s!"model={show_ (Bind.buildParamList bs ps)}\tspec={show_ (Bind.fill bs ps)}"
+
 def dispLine (line : String) : String :=
   match words line with
   | ["cast", k, p] =>
@@ -60,6 +79,10 @@ def dispLine (line : String) : String :=
              | none => "entered ?")
         | .error => "error"
       s!"model={r}\tspec={r}"
+  | ["bind", pattern, n, mixed] =>
+      (match n.toNat? with
+       | some k => bindLine pattern k (mixed == "1")
+       | none => "bad-op")
   | _ => "bad-op"
 
 end ChaiVerif.Drv
